@@ -35,7 +35,7 @@ def simple_paths(n, arcs, s, t):
 
 
 def c10_reference(n, arcs):
-    N = D.NAMES
+    N = D.names_for(n, arcs)
     g = D.prepared(n, arcs)
     reach = closure(n, arcs)
     ix = {N[i]: i for i in range(n)}
@@ -102,7 +102,7 @@ def dsep_paths(n, arcs, x, y, Z):
 
 
 def c11_reference(n, arcs):
-    N = D.NAMES
+    N = D.names_for(n, arcs)
     g = D.prepared(n, arcs)
     for x in range(n):
         for y in range(x + 1, n):
@@ -119,7 +119,7 @@ def c11_reference(n, arcs):
 
 
 def c19_reference(n, arcs):
-    N = D.NAMES
+    N = D.names_for(n, arcs)
     g = D.prepared(n, arcs)
     reach = closure(n, arcs)
     ix = {N[i]: i for i in range(n)}
@@ -145,7 +145,7 @@ def c19_reference(n, arcs):
 
 
 def c20_reference(n, arcs):
-    N = D.NAMES
+    N = D.names_for(n, arcs)
     g = D.prepared(n, arcs)
     ix = {N[i]: i for i in range(n)}
     for a in range(n):
